@@ -356,6 +356,13 @@ func C10(tier rt.Tier) int {
 		maxKeys, flipKeys, modes = 4, 3, []int{0, 1, 2, 3, 4, 5, 6}
 	}
 	cs := contents(maxKeys, []string{"a", "b"})
+	// live entries of weight 0 ("every trie content"; C09's positive weights are not assumed here): beside and
+	// between weighted keys and in deep pairs (a non-empty trie of TOTAL weight 0 is left out: the library's own
+	// idiom - Rollback, RollbackTrie, reopening from root hash and weight - takes weight 0 for "empty")
+	cs = append(cs,
+		content{[]int{0, 1}, []string{"z", "a"}}, content{[]int{0, 1}, []string{"a", "z"}},
+		content{[]int{0, 2, 5}, []string{"z", "a", "b"}}, content{[]int{0, 2, 5}, []string{"a", "z", "b"}}, content{[]int{0, 1, 5}, []string{"b", "z", "z"}},
+		content{[]int{0, 2, 4, 5}, []string{"z", "a", "z", "b"}}, content{[]int{0, 1, 2}, []string{"z", "z", "a"}})
 	// a second trie whose proof elements serve as substitution material
 	second, _ := buildTrie(content{keys: []int{0, 3, 5}, vals: []string{"b", "b", "a"}}, Shared(true), 0)
 	var foreign [][]byte
